@@ -1661,7 +1661,7 @@ class SchemaAgree(ProtoBase):
 
 PROTO_WORDS = ["message", "enum", "package", "syntax", "repeated", "oneof", "import", "option", "reserved", "returns",
                "rpc", "service", "stream", "map", "bool", "string", "bytes", "uint32", "double", "float", "true", "false",
-               "max", "to", "extend", "extensions", "group", "public", "weak", "optional", "required", "inf", "nan"]
+               "max", "to", "extend", "extensions", "group", "public", "weak", "optional", "required", "inf", "nan", "value"]
 
 GEN_MODULE_NAMES = ["Simple", "Fleet-Module", "FleetModule", "My-Module-Defs", "ITS-Container", "CAM-PDU-Descriptions",
                     "ISO-8859", "X-509", "A", "Ab-Cd-Ef", "Abc2", "Abc-2x", "My-Mod3-X", "UPPER", "UPPER-Case", "Camel-CaseName",
@@ -1780,6 +1780,10 @@ class ProtoGen(ProtoBase):
         for pat, cls in GEN_CLASSES:
             if re.search(pat, v[1]):
                 return cls
+        if '"value" is already defined' in v[1]:
+            texts = [unhex(h).decode("utf-8", "replace") for h in req.split(" ")[2].split(",")]
+            if any(re.search(r"CHOICE\s*\{[^{}]*\bvalue\s", t) for t in texts):
+                return "proto.oneof_name_collision"
         if "is already defined" in v[1]:
             texts = [unhex(h).decode("utf-8", "replace") for h in req.split(" ")[2].split(",")]
             if any(self.ANON_INNER.search(t) for t in texts):
